@@ -189,8 +189,9 @@ def diagram_case(ctx, k, rng):
         deco = deco and target.get_title() == ""
     ctx.check("diagram plot: title / labels / legend as requested", deco, xlabel=target.get_xlabel(), ylabel=target.get_ylabel(),
               legend=leg_txt, wanted_labels=want_labels, title=target.get_title())
+    # (a diagram whose coordinates are all equal gets a zero-length diagonal: it is still "drawn")
     diag_lines = [l for l in target.lines if len(l.get_xdata()) == 2 and np.allclose(l.get_xdata(), l.get_ydata()) and l.get_linestyle() == "--"
-                  and l.get_xdata()[0] != l.get_xdata()[1]]
+                  and not (has_inf and inf_y is not None and l.get_ydata()[0] == l.get_ydata()[1] == inf_y and l.get_xdata()[0] != l.get_xdata()[1])]
     want_diag = opts.get("diagonal", True) and not lifetime
     ctx.check("diagram plot: diagonal drawn iff requested", (len(diag_lines) == 1) == bool(want_diag), found=len(diag_lines), wanted=want_diag)
     dirty = other_axes_clean(target)
